@@ -175,8 +175,9 @@ def run(ctx):
     states += seq_r.distinct
     trans += seq_r.generated
     conc_cases = [c for c in conc_cases if len(c["hist"]) > 2]
-    if quick and len(conc_cases) > 500:
-        conc_cases = rnd.sample(conc_cases, 500)
+    cap = 500 if quick else 16000
+    if len(conc_cases) > cap:
+        conc_cases = rnd.sample(conc_cases, cap)
     cases = []
     for c in seq_cases + conc_cases:
         c["id"] = len(cases) + 1
@@ -194,7 +195,7 @@ def run(ctx):
         raise vf.Inconclusive("replay driver: %d summaries for %d cases\n%s" % (len(sums), len(cases), out[-3000:]))
     # ---------------------------------------------------------------- 3. free-running executions, real policies
     fp = os.path.join(ctx.tmp, "c13_free_traces.ndjson")
-    nfree = 600 if quick else 8000
+    nfree = 600 if quick else 6000
     rc, out2 = vf.run_gotest(ctx, binary, "^TestVfC13Free$", env={"VF_TRACES": fp, "VF_NTRACES": nfree, "VF_IDBASE": 1000000},
                              timeout=900)
     fsums = [json.loads(l[9:]) for l in out2.splitlines() if l.startswith("VFC13SUM ")]
